@@ -575,6 +575,28 @@ func runC13(c *harness.Case) {
 				c.Stat("streams_compared_after_a_transient_iterator_error", 1)
 			}
 		}
+		// the same for Count: a partition scanned twice must be counted once
+		if derr == nil && len(recs) > 2 {
+			N := 1 + r.Intn(len(recs))
+			var fired int32
+			iw.IterFault = func(start, end []byte, k int) error {
+				if k == N && atomic.CompareAndSwapInt32(&fired, 0, 1) {
+					return errors.New("injected transient iterator error")
+				}
+				return nil
+			}
+			cr, cerr := n.B.Count(harness.Ctx, &proto.CountRequest{Key: []byte(full), End: []byte(fullEnd)})
+			iw.IterFault = nil
+			if cerr == nil && n.Committed() == R {
+				if int(cr.Count) != len(want) {
+					c.Violatef("C13 count-differs-from-unpartitioned-reference after-transient-iterator-error", wit(), "Count with one transient iterator error at step %d of a partition scan (retried by the scanner) answered %d; the snapshot at %d holds %d keys", N, cr.Count, R, len(want))
+					return
+				}
+				if atomic.LoadInt32(&fired) == 1 {
+					c.Stat("counts_compared_after_a_transient_iterator_error", 1)
+				}
+			}
+		}
 	}
 	{
 		// streams whose scan cannot finish: the request's context is already cancelled (every case), or one partition's
